@@ -7,7 +7,9 @@
 //   output: one line "rrt <n>; x y p; ... | <reported 0/1> <approx> <diff> | x y; ..." with doubles as bit patterns
 #define protected public
 #include <ompl/geometric/planners/rrt/RRT.h>
+#include <ompl/geometric/planners/rrt/RRTConnect.h>
 #undef protected
+#include <ompl/base/goals/GoalStates.h>
 #include <ompl/base/spaces/RealVectorStateSpace.h>
 #include <ompl/base/SpaceInformation.h>
 #include <ompl/base/ProblemDefinition.h>
@@ -67,6 +69,46 @@ int main()
     {
         std::istringstream in(line); std::string cmd, tag; double maxd, bias, thr; unsigned iters = 0; unsigned long tseed = 0;
         if (!(in >> cmd)) continue;
+        if (cmd == "RRTC")
+        {   // RRTC <maxDistance> W <nw> {w lo hi}* S <ns> {x y}* G <ng> {x y}* P <np> {x y}*   RRTConnect, one iteration per scripted sample
+            double md; in >> md; int n2; std::vector<Wall> walls2; std::vector<std::pair<double, double>> st2, gl2;
+            auto smp = std::make_shared<std::deque<std::pair<double, double>>>();
+            in >> tag >> n2; for (int i = 0; i < n2; ++i) { Wall k; in >> k.w >> k.lo >> k.hi; walls2.push_back(k); }
+            in >> tag >> n2; for (int i = 0; i < n2; ++i) { double x, y; in >> x >> y; st2.emplace_back(x, y); }
+            in >> tag >> n2; for (int i = 0; i < n2; ++i) { double x, y; in >> x >> y; gl2.emplace_back(x, y); }
+            in >> tag >> n2; for (int i = 0; i < n2; ++i) { double x, y; in >> x >> y; smp->emplace_back(x, y); }
+            auto space = std::make_shared<ob::RealVectorStateSpace>(2); space->setBounds(-100, 100);
+            space->setStateSamplerAllocator([smp](const ob::StateSpace *sp) { return std::make_shared<ScriptSampler>(sp, smp); });
+            auto si = std::make_shared<ob::SpaceInformation>(space);
+            si->setStateValidityChecker([](const ob::State *) { return true; });
+            si->setMotionValidator(std::make_shared<WallMV>(si, walls2)); si->setup();
+            auto pdef = std::make_shared<ob::ProblemDefinition>(si);
+            for (auto &q : st2) { ob::ScopedState<> a(space); a[0] = q.first; a[1] = q.second; pdef->addStartState(a); }
+            auto gs = std::make_shared<ob::GoalStates>(si);
+            for (auto &q : gl2) { ob::ScopedState<> a(space); a[0] = q.first; a[1] = q.second; gs->addState(a); }
+            pdef->setGoal(gs);
+            auto planner = std::make_shared<og::RRTConnect>(si);
+            planner->setNearestNeighbors<ompl::NearestNeighborsLinear>(); planner->setRange(md);
+            planner->setProblemDefinition(pdef); planner->setup();
+            planner->solve(ob::PlannerTerminationCondition([smp] { return smp->empty(); }));
+            auto dump = [&](const std::shared_ptr<ompl::NearestNeighbors<og::RRTConnect::Motion *>> &t)
+            {
+                std::vector<og::RRTConnect::Motion *> ms; t->list(ms);
+                std::map<const og::RRTConnect::Motion *, long> idx; for (std::size_t i = 0; i < ms.size(); ++i) idx[ms[i]] = (long)i;
+                std::printf(" %zu;", ms.size());
+                for (auto *m : ms) { const double *v = m->state->as<ob::RealVectorStateSpace::StateType>()->values; std::printf(" %016llx %016llx %ld;", bits(v[0]), bits(v[1]), m->parent ? idx[m->parent] : -1L); }
+            };
+            std::printf("rrtc"); dump(planner->tStart_); std::printf(" /"); dump(planner->tGoal_);
+            if (pdef->hasSolution())
+            {
+                auto path = std::dynamic_pointer_cast<og::PathGeometric>(pdef->getSolutionPath());
+                if (pdef->hasApproximateSolution()) std::printf(" | 1 1 %016llx |", bits(pdef->getSolutionDifference())); else std::printf(" | 1 0 |");
+                for (std::size_t i = 0; i < path->getStateCount(); ++i) { const double *v = path->getState(i)->as<ob::RealVectorStateSpace::StateType>()->values; std::printf(" %016llx %016llx;", bits(v[0]), bits(v[1])); }
+            }
+            else std::printf(" | 0 |");
+            std::printf("\n"); std::fflush(stdout);
+            continue;
+        }
         const bool multi = cmd == "RRTN";
         if (cmd != "RRT" && !multi) continue;
         in >> maxd >> bias >> thr; if (!multi) in >> iters >> tseed;
